@@ -20,7 +20,12 @@ class _Capture(logging.Handler):
     def emit(self, record):  # noqa: D102
         sink = getattr(_tls, "sink", None)
         if sink is not None:
-            sink.append((record.name, record.msg if isinstance(record.msg, str) else str(record.msg)))
+            # what a user's handler would print: the *formatted* message. A record whose formatting fails is lost to every
+            # ordinary handler (logging swallows the error), so it does not count as a warning here either.
+            try:
+                sink.append((record.name, record.getMessage()))
+            except Exception as ex:  # noqa: BLE001
+                sink.append((record.name, f"<lost: formatting the record raised {type(ex).__name__}>"))
 
 
 _handler = None
